@@ -29,6 +29,8 @@ var (
 )
 
 type SchemaOpts struct {
+	// NoStress switches the size stress (StressSchema, one document in 12) off.
+	NoStress bool
 	Draft    Draft
 	MaxDepth int
 	Refs     bool   // $defs/definitions + $ref (+ $anchor)
@@ -50,6 +52,14 @@ type sgen struct {
 // With Refs it is an object whose $defs are numbered d0..dk; in-place references only go to
 // higher-numbered definitions, so every reference cycle passes through an instance-descending keyword.
 func Schema(r *rand.Rand, o SchemaOpts) any {
+	doc := schema0(r, o)
+	if !o.NoStress && r.IntN(12) == 0 {
+		StressSchema(r, doc, o.Draft)
+	}
+	return doc
+}
+
+func schema0(r *rand.Rand, o SchemaOpts) any {
 	g := &sgen{r: r, o: o, names: o.Names}
 	if g.names == nil {
 		g.names = Names
